@@ -1,5 +1,5 @@
 PROP = {
-    "modules": ["IdenaModel.Props.C02"],
+    "modules": ["IdenaModel.Props.C02", "IdenaModel.Props.C02Compose"],
     "theorems": [
         "IdenaModel.BlockBuild.process_filter_ok",
         "IdenaModel.BlockBuild.filter_sublist",
@@ -9,11 +9,15 @@ PROP = {
         "IdenaModel.BlockBuild.filterD_all_kept",
         "IdenaModel.BlockBuild.propose_accepted",
         "IdenaModel.BlockBuild.propose_as_found_rejected",
+        "IdenaModel.BlockValidate.proposeTime_not_early",
+        "IdenaModel.BlockValidate.honest_header_accepted_iff",
+        "IdenaModel.BlockValidate.honest_header_accepted",
+        "IdenaModel.BlockValidate.honest_header_refused_only_for_time",
     ],
     "channels": [{"name": "C02", "exe": "oracle_c02"}],
     "trusted_base": [
         "per-transaction verdicts (ValidateTx, applyTxOnState, fee, gas) are parameters of the theorem; the correspondence feeds the recorded real verdicts",
-        "header derivation (flags, bloom, CIDs, roots, fee rate) is not in the Lean model: both paths call the same Go functions; covered by the two-replica run (B's real ValidateBlock on A's real ProposeBlock) and by C03's tampering matrix",
+        "header derivation: Model/ProposeHeader.lean states which function fills which field of ProposeBlock's header in the vocabulary of M-BlockValidate (the recomputation functions stay parameters: both paths call the same Go functions on the same state, which is C01); honest_header_accepted_iff then says a correct validator on the same head accepts iff the proposer's clock is not more than MaxFutureBlockOffset ahead; the clock clause is exercised on the two replicas (lines `clock <head time> <proposer clock> <validator clock>`: real header time and real verdict, refused blocks must not be insertable and must be accepted unchanged once the clock caught up); the rest by the two-replica run (B's real ValidateBlock on A's real ProposeBlock) and by C03's tampering matrix",
         "side-effecting validation (finding F18): `propose_accepted` is about ProposeBlock's shape `filter; if dropped then strict re-run on a clean state`; that shape is re-extracted from blockchain.go by go/ast on every run (fact line) and exercised by the two-replica run with conflicting candidates",
         "chain fixture harness/internal/chainfx + pairfx (two real replicas, virtual clock, ceremony attach shim)"],
     "assumptions": ["Upgrade10 gas regime (every configuration since consensus v10); the legacy regime is modelled and its divergence documented"],
